@@ -976,7 +976,16 @@ def gen_tms_dataset(rng):
     if big:
         xyz = np.array([[gen_coord(rng, allow_nan=False) for _ in range(3)] for _ in range(n)])
     xyz = np.clip(xyz, -9_999_999.9999, 9_999_999.9999)
-    d.add_position(pre + "site_pos", val=xyz, system="trs")
+    pos_system = "trs"
+    if not big and rng.random() < 0.25:
+        # the station positions kept as latitude / longitude / height (points near the ellipsoid)
+        pos_system = "llh"
+        base_llh = [np.array([rng.uniform(-1.5, 1.5), rng.uniform(-3.1, 3.1), rng.uniform(-100.0, 3000.0)]) for _ in range(nsta)]
+        llh_rows = np.array([base_llh[si] + np.array([rng.uniform(-1e-9, 1e-9), rng.uniform(-1e-9, 1e-9), rng.uniform(-0.05, 0.05)])
+                             for si, _ in rows])
+        d.add_position(pre + "site_pos", val=llh_rows, system="llh")
+    else:
+        d.add_position(pre + "site_pos", val=xyz, system="trs")
     which = []
     def addf(name, gen, unit="meter"):
         if rng.random() < 0.6:
@@ -998,7 +1007,11 @@ def gen_tms_dataset(rng):
             ref = Position(val=np.array([llh[si] for si, _ in rows]), system="llh")
         scale = rng.choice([0.05, 0.05, 5.0, 99999.0, 999999.0])
         enu = np.array([[rng.uniform(-scale, scale) for _ in range(3)] for _ in range(n)])
-        d.add_position_delta(pre + "dsite_pos", val=enu, system="enu", ref_pos=ref)
+        if scale <= 5.0 and rng.random() < 0.3:
+            # the displacements given as geocentric differences (the writer prints their east / north / up components)
+            d.add_position_delta(pre + "dsite_pos", val=enu, system="trs", ref_pos=ref)
+        else:
+            d.add_position_delta(pre + "dsite_pos", val=enu, system="enu", ref_pos=ref)
         for nm in ("dsite_pos_east_sigma", "dsite_pos_north_sigma", "dsite_pos_up_sigma"):
             addf(nm, sig)
         d.meta["ref_epoch"] = "2010-01-01T00:00:00"
@@ -1023,14 +1036,14 @@ def gen_tms_dataset(rng):
 TMS_MEANING = {
     "YYYY-MM-DD": lambda d, i: d.time.utc.datetime[i].strftime("%Y-%m-%d"),
     "YEAR": lambda d, i: d.time.utc.decimalyear[i],
-    "X": lambda d, i: np.asarray(O(d).site_pos)[i][0], "Y": lambda d, i: np.asarray(O(d).site_pos)[i][1],
-    "Z": lambda d, i: np.asarray(O(d).site_pos)[i][2],
+    "X": lambda d, i: np.atleast_2d(np.asarray(O(d).site_pos.trs))[i][0], "Y": lambda d, i: np.atleast_2d(np.asarray(O(d).site_pos.trs))[i][1],
+    "Z": lambda d, i: np.atleast_2d(np.asarray(O(d).site_pos.trs))[i][2],
     "SIG_X": lambda d, i: O(d).site_pos_x_sigma[i], "SIG_Y": lambda d, i: O(d).site_pos_y_sigma[i],
     "SIG_Z": lambda d, i: O(d).site_pos_z_sigma[i],
     "CORR_XY": lambda d, i: O(d).site_pos_xy_correlation[i], "CORR_XZ": lambda d, i: O(d).site_pos_xz_correlation[i],
     "CORR_YZ": lambda d, i: O(d).site_pos_yz_correlation[i],
-    "EAST": lambda d, i: np.asarray(O(d).dsite_pos)[i][0], "NORTH": lambda d, i: np.asarray(O(d).dsite_pos)[i][1],
-    "UP": lambda d, i: np.asarray(O(d).dsite_pos)[i][2],
+    "EAST": lambda d, i: np.atleast_2d(np.asarray(O(d).dsite_pos.enu))[i][0], "NORTH": lambda d, i: np.atleast_2d(np.asarray(O(d).dsite_pos.enu))[i][1],
+    "UP": lambda d, i: np.atleast_2d(np.asarray(O(d).dsite_pos.enu))[i][2],
     "SIG_E": lambda d, i: O(d).dsite_pos_east_sigma[i], "SIG_N": lambda d, i: O(d).dsite_pos_north_sigma[i],
     "SIG_U": lambda d, i: O(d).dsite_pos_up_sigma[i],
     "NOBSC": lambda d, i: O(d).code_obs_num[i], "NOBSP": lambda d, i: O(d).phase_obs_num[i],
@@ -1047,7 +1060,7 @@ def tms_value(dset, field: str, i: int):
 
     if field.startswith("obs.") and "obs" not in dset.fields:
         field = field[4:]  # flat layout: the writer moves the field into `obs` on its own copy
-    return attrgetter(field)(dset)[i]
+    return np.atleast_1d(attrgetter(field)(dset))[i]  # (a one-row delta converted to another system loses its row dimension)
 
 
 def case_tms(run: Run, rng, dft: List[Tuple[str, str]]):
@@ -1057,6 +1070,9 @@ def case_tms(run: Run, rng, dft: List[Tuple[str, str]]):
         d, stas, has_east = gen_tms_dataset(rng)
     ctx.count(f"tms-stations:{len(stas)}")
     ctx.count("tms-layout:" + ("obs" if "obs" in d.fields else "flat"))
+    ctx.count("tms-site-pos-system:" + str(O(d).site_pos.system))
+    if has_east:
+        ctx.count("tms-dsite-pos-system:" + str(O(d).dsite_pos.system) + "/ref:" + str(O(d).dsite_pos.ref_pos.system))
     order = list(stas)
     rng.shuffle(order)
     # every station of the dataset is written from the same dataset object, one after the other
